@@ -1,11 +1,83 @@
 import EpdVerif.Drivers.Dsl
 import EpdVerif.Gen.Epd1in54b
-/-! model of `src/epd1in54b/mod.rs` (STUB: programs not yet transcribed) -/
+/-! model of `src/epd1in54b/mod.rs` -/
 namespace EpdVerif.Drivers.Epd1in54b
 open EpdVerif
 open EpdVerif.Gen.Epd1in54b
 
-def prog (_f : Feat) (_d : DState) : Op → Option (List Act)
+def W : Act := .wait IS_BUSY_LOW
+
+/-- `expand_bits`: every bit of the input byte is doubled (u16 arithmetic) -/
+def expandBits (b : UInt8) : Bytes :=
+  let x := b.toNat
+  let x := (x ||| (x <<< 4)) &&& 0x0F0F
+  let x := (x ||| (x <<< 2)) &&& 0x3333
+  let x := (x ||| (x <<< 1)) &&& 0x5555
+  let x := (x ||| (x <<< 1)) &&& 0xFFFF
+  [shr8 x 8, u8 (x &&& 0xFF)]
+
+def sendResolution : List Act :=
+  [.cmd Command.ResolutionSetting, .data [u8 WIDTH], .data [shr8 HEIGHT 8], .data [u8 HEIGHT]]
+
+def setLut : List Act :=
+  cmdData Command.LutForVcom LUT_VCOM0 ++
+  cmdData Command.LutWhiteToWhite LUT_WHITE_TO_WHITE ++
+  cmdData Command.LutBlackToWhite LUT_BLACK_TO_WHITE ++
+  cmdData Command.LutG0 LUT_G1 ++
+  cmdData Command.LutG1 LUT_G2 ++
+  cmdData Command.LutRedVcom LUT_RED_VCOM ++
+  cmdData Command.LutRed0 LUT_RED0 ++
+  cmdData Command.LutRed1 LUT_RED1
+
+def init : List Act :=
+  [.reset 10000 10000] ++
+  cmdData Command.PowerSetting [0x07, 0x00, 0x08, 0x00] ++
+  cmdData Command.BoosterSoftStart [0x07, 0x07, 0x07] ++
+  [.cmd Command.PowerOn, .delayUs 5000, W] ++
+  cmdData Command.PanelSetting [0xCF] ++
+  cmdData Command.VcomAndDataIntervalSetting [0x37] ++
+  cmdData Command.PllControl [0x39] ++
+  sendResolution ++
+  cmdData Command.VcmDcSetting [0x0E] ++
+  setLut ++ [W]
+
+def updateAchromatic (b : Bytes) : List Act :=
+  [W] ++ sendResolution ++ [.cmd Command.DataStartTransmission1] ++
+  b.map (fun x => Act.data (expandBits x))
+
+def updateChromatic (c : Bytes) : List Act :=
+  [.cmd Command.DataStartTransmission2, .data c]
+
+def updateFrame (d : DState) (b : Bytes) : List Act :=
+  [W] ++ sendResolution ++ [.cmd Command.DataStartTransmission1] ++
+  b.map (fun x => Act.data (expandBits x)) ++
+  [.cmd Command.DataStartTransmission2, .rep (byteValue d.bg) (WIDTH * (HEIGHT / 8))]
+
+def displayFrame : List Act := [W, .cmd Command.DisplayRefresh]
+
+def prog (_f : Feat) (d : DState) : Op → Option (List Act)
+  | .new => some init
+  | .wake => some init
+  | .sleep => some ([W] ++
+      cmdData Command.VcomAndDataIntervalSetting [0x17] ++
+      cmdData Command.VcmDcSetting [0x00] ++
+      cmdData Command.PowerSetting [0x02, 0x00, 0x00, 0x00] ++
+      [W, .cmd Command.PowerOff])
+  | .upd b => some (updateFrame d b)
+  | .part _ _ _ _ _ => some [.panic]
+  | .disp => some displayFrame
+  | .updisp b => some (updateFrame d b ++ displayFrame)
+  | .clear => some ([W] ++ sendResolution ++
+      [.cmd Command.DataStartTransmission1,
+       .rep (byteValue DEFAULT_BACKGROUND_COLOR) (2 * (WIDTH / 8 * HEIGHT)),
+       .cmd Command.DataStartTransmission2,
+       .rep (byteValue DEFAULT_BACKGROUND_COLOR) (WIDTH / 8 * HEIGHT)])
+  | .bg c => some [.upd (fun d => { d with bg := c })]
+  | .lut _ => some setLut
+  | .wait => some [W]
+  | .color b c => some (updateAchromatic b ++ updateChromatic c)
+  | .achro b => some (updateAchromatic b)
+  | .chro c => some (updateChromatic c)
   | _ => none
 
 def panel (f : Feat) : Panel :=
